@@ -443,6 +443,19 @@ let handle_k = function
         else Printf.sprintf "%s %s" id (if items = [] then "-" else String.concat "," (List.map show items))
   | _ -> failwith "bad K line"
 
+(* KH <id> <events>: the guard of the in-memory YAML path on the parser's events *)
+let handle_kh = function
+  | [ id; evs ] ->
+      let parse_ev s =
+        match s.[0] with
+        | 's' -> YDocStart | 'c' -> YScalar | 'C' -> YCollStart | 'E' -> YStreamEnd | 'o' -> YOther | 'x' -> YErr
+        | 'e' -> YDocEnd (nat_of_int 0, nat_of_int 0)
+        | _ -> failwith "bad event"
+      in
+      if evs = "P" then id ^ " panic"
+      else id ^ (if has_document (if evs = "-" then [] else List.map parse_ev (split_on ',' evs)) then " doc" else " nodoc")
+  | _ -> failwith "bad KH line"
+
 (* MP <id> <trace>: the resource trace of the libyaml binding through the protocol monitor.
    trace: comma list of I | A | c<len>:<size>:<bouncer> | R | D | F | e | d.  One run may create several parsers
    one after another (detection, then translation): the monitor is restarted at every I after a clean state. *)
@@ -516,6 +529,7 @@ let () =
           | "FT" :: rest -> handle_ft rest
           | "FW" :: rest -> handle_fw rest
           | "K" :: rest -> handle_k rest
+          | "KH" :: rest -> handle_kh rest
           | "MP" :: rest -> handle_mp rest
           | "DT" :: rest -> handle_dt rest
           | "CP" :: rest -> handle_cp rest
